@@ -15,7 +15,7 @@ func init() {
 		Technique:   "ordering (must-pass-through) on bootStateUpdate20.commit; closure-context who-may-call for the bootloader-side kernel operations (which commit phase a closure is registered for); guarded-sink reachability on the try-status selection of the UC20 kernel/base and UC16 boot states and on selectSuccessfulBootSnap",
 		Explanation: "Structural necessary conditions for 'kernel/base updates can always fall back' (the boot protocol itself - bootloader, initramfs, crash between two variable writes - is a model-checking question and is not decided): (R1) bootStateUpdate20.commit runs, under the modeenv lock, the pre-modeenv tasks, then writes the modeenv, then reseals, then runs the post-modeenv tasks; a failing step stops the sequence; (R2) the bootloader-side 'set next kernel' operations run only in closures registered as post-modeenv tasks (the modeenv must trust the new kernel first) and 'mark kernel successful' only in a pre-modeenv task (the bootloader must stop falling back before the old kernel leaves the modeenv); (R3) UC20 kernel setNext selects the try status only when a reboot is required and this is not an undo, keeps the old kernel in CurrentKernels (append) unless undoing; kernel markSuccessful reduces CurrentKernels to the booted kernel only together with the pre-modeenv mark-successful task; base setNext always writes BaseStatus (also when the base is already current, so a stale try is cleared) and sets TryBase only on the try path; (R4) selectSuccessfulBootSnap picks the try snap only in status trying with a try snap present, otherwise the current snap; (R5) UC16: the good variable (snap_kernel/snap_core) is committed only by markSuccessful in status trying with a try snap, or by setNext when booting without try; setNext otherwise only writes snap_mode and the try variable; (R6) MarkBootSuccessful commits once, after every participating markSuccessful succeeded.",
 		NotDecided:  "the boot protocol end to end (firmware/initramfs transitions, grub.cfg, a crash between two bootloader variable writes); resealing; gadget assets.",
-		Run:         func(c *Ctx) { runC17(c); runC17x(c); runC17z(c) },
+		Run:         func(c *Ctx) { runC17(c); runC17x(c); runC17z(c); runC17y(c) },
 	})
 }
 
